@@ -26,6 +26,14 @@ func (e StdEng) argmaxDenseTensor(t DenseTensor, axis int) (retVal *Dense, err e
 
 	// SPECIAL CASE: FLAT ARGMAX
 	if axis == AllAxes {
+		// the flat kernels walk the raw storage: a view or lazily transposed tensor must be read by its logical
+		// content, otherwise the index of a physical position (possibly outside the view) is returned
+		if v, ok := t.(View); ok && v.IsMaterializable() {
+			if mt, ok := v.Materialize().(DenseTensor); ok {
+				t = mt
+				dataA = t.hdr()
+			}
+		}
 		var index int
 		if mt, ok := t.(MaskedTensor); ok && mt.IsMasked() {
 			if index = e.E.ArgmaxFlatMasked(typ, dataA, mt.Mask()); index == -1 {
@@ -113,6 +121,14 @@ func (e StdEng) argminDenseTensor(t DenseTensor, axis int) (retVal *Dense, err e
 
 	// SPECIAL CASE: FLAT ARGMAX
 	if axis == AllAxes {
+		// the flat kernels walk the raw storage: a view or lazily transposed tensor must be read by its logical
+		// content, otherwise the index of a physical position (possibly outside the view) is returned
+		if v, ok := t.(View); ok && v.IsMaterializable() {
+			if mt, ok := v.Materialize().(DenseTensor); ok {
+				t = mt
+				dataA = t.hdr()
+			}
+		}
 		var index int
 		if mt, ok := t.(MaskedTensor); ok && mt.IsMasked() {
 			if index = e.E.ArgminFlatMasked(typ, dataA, mt.Mask()); index == -1 {
